@@ -16,7 +16,7 @@ func TestC02(t *testing.T) {
 	mon.Main(t, mon.Check{
 		ID:          "C02",
 		Level:       "exploration",
-		Rule:        "two real noise Machines after a real XX or KK handshake; the writer's records are captured (18-byte header record + body record), an adversary edits the byte stream, and the reader calls ReadMessage until the stream is exhausted, continuing after errors. Case kinds: (F) every single-bit flip of every byte of a 3-record stream (sizes drawn from {0,1,2,15,16,17,1000}), exhaustive per stream; (R) PRNG scripts of 1-5 edits from {flip, truncate at any offset, drop record / header / body, duplicate, swap adjacent, replay earlier record, reflect a record of the opposite direction (same index or another), inject random bytes, splice header of one record onto the body of another} over 3-12 records of sizes {0,1,2,15,16,17,1000,65535}; (X) targeted: replay of record i in place of record 500+i (across the key rotation), reflection of the reader's own k-th record at position k, a record of an unrelated session at the same index, and header/body type confusion with 2-byte records whose plaintext is a valid length. Oracle: the list of plaintexts returned without error is a prefix of the list the authentic peer wrote in that direction (byte-exact), whatever happens after the first error. Non-trivial = the edit changed the byte stream; distinct = (kind, pattern, direction, script).",
+		Rule:        "two real noise Machines after a real XX or KK handshake; the writer's records are captured (18-byte header record + body record), an adversary edits the byte stream, and the reader calls ReadMessage until the stream is exhausted, continuing after errors. Case kinds: (F) every single-bit flip of every byte of a 3-record stream (sizes drawn from {0,1,2,15,16,17,1000}), exhaustive per stream; (R) PRNG scripts of 1-5 edits from {flip, truncate at any offset, drop record / header / body, duplicate, swap adjacent, replay earlier record, reflect a record of the opposite direction (same index or another), inject random bytes, splice header of one record onto the body of another} over 3-12 records of sizes {0,1,2,15,16,17,1000,65535}; (X) targeted: replay of record i in place of record 500+i (across the key rotation), reflection of the reader's own k-th record at position k (k < 6, and k >= 500 after both directions have rotated their keys), a record of an unrelated session at the same index, and header/body type confusion with 2-byte records whose plaintext is a valid length. Oracle: the list of plaintexts returned without error is a prefix of the list the authentic peer wrote in that direction (byte-exact), whatever happens after the first error. Non-trivial = the edit changed the byte stream; distinct = (kind, pattern, direction, script).",
 		Assumptions: []string{"computational security of ChaCha20-Poly1305 is not judged; only what the reader returns is"},
 		NCases: func(tier string) int {
 			if tier == "thorough" {
@@ -297,7 +297,7 @@ func runC02Random(c *mon.Case) {
 func runC02Targeted(c *mon.Case) {
 	rng := c.Rng
 	tr := c02Trial{kk: rng.Intn(2) == 0, toServer: rng.Intn(2) == 0}
-	variant := (c.Idx / 3) % 4
+	variant := (c.Idx / 3) % 5
 	desc := ""
 	var reader *mailbox.Machine
 	var recs []eng.Record
@@ -344,6 +344,25 @@ func runC02Targeted(c *mon.Case) {
 			stream = append(stream, rec.Bytes()...)
 		}
 		desc = fmt.Sprintf("the reader's own record #%d reflected back at position %d", k, k)
+	case 4: // reflection after both directions have rotated their keys
+		n := 500 + 6
+		for i := 0; i < n; i++ {
+			tr.sizes = append(tr.sizes, []int{0, 1, 9}[i%3])
+		}
+		r, rs, rev, err := tr.setup(rng, n)
+		if err != nil {
+			c.Shard.Inconc(err.Error())
+			return
+		}
+		reader, recs = r, rs
+		k := 500 + rng.Intn(6)
+		for j, rec := range recs {
+			if j == k {
+				stream = append(stream, rev[k].Bytes()...)
+			}
+			stream = append(stream, rec.Bytes()...)
+		}
+		desc = fmt.Sprintf("the reader's own record #%d reflected back at position %d (both directions past their first key rotation)", k, k)
 	case 3: // a record of a different session (same index, same direction)
 		n := 5
 		for i := 0; i < n; i++ {
